@@ -118,6 +118,51 @@ def validation_dominates(f, err_variant='StringWrongLen'):
     return vidx, uidx
 
 
+def query_semantics(f, elem_true, elem_false):
+    """amplitude / expectation_value on a 3-qubit circuit, evaluated up to the first graph operation the host does not model, for query strings of length 0..5:
+    a string of length 1 (broadcast) or 3 (exact) is accepted, any other length returns Err(StringWrongLen) BEFORE any plug / index; for amplitude the plugged
+    basis elements are recorded.  Returns (ok | None, message, sample)."""
+    from .. import minirust as M
+    ps = [p_ for p_ in f['params'] if p_.get('k') == 'Bind']
+    circ = [p_ for p_, t in zip(f['params'], f['inputs']) if 'Circuit' in t]
+    strp = [p_ for p_, t in zip(f['params'], f['inputs']) if 'Vec<' in t]
+    if len(circ) != 1 or len(strp) != 1:
+        return None, 'the circuit / query-string parameters were not identified', None
+    results = {}
+    plugged = {}
+    for L in range(0, 6):
+        record = {'inputs': None, 'outputs': None}
+
+        def mk_graph(record=record):
+            return M.Obj('graph', {'plug_inputs': lambda a: record.__setitem__('inputs', list(a[0])), 'plug_outputs': lambda a: record.__setitem__('outputs', list(a[0]))}, strict=False)
+        c_obj = M.Obj('circ', {'num_qubits': lambda a: 3, 'to_graph': lambda a, mk=mk_graph: mk()}, strict=False)
+        env = {circ[0]['id']: c_obj, strp[0]['id']: [elem_true if i % 2 == 0 else elem_false for i in range(L)]}
+        for p_ in ps:
+            env.setdefault(p_['id'], M.Obj(p_['name'], {}, strict=False))
+        it = M.Interp()
+        it.host_fns = {}
+        try:
+            it.block(hir.stmts_of(f['hir']), env)
+            results[L] = 'finished'
+        except M._Return as r:
+            results[L] = ('Err:' + str(r.v[1][1]).rsplit('::', 1)[-1]) if isinstance(r.v, tuple) and r.v[0] == 'Err' and isinstance(r.v[1], tuple) else 'returned'
+        except M.Proceed as pr:
+            results[L] = 'proceeds'
+        except M.NoEval as ex:
+            if 'call ' in str(ex) and (record['inputs'] is not None or record['outputs'] is not None):
+                results[L] = 'proceeds'      # reached a call into the rest of the pipeline after plugging
+            else:
+                return None, 'the query validation is not evaluable by the rule (%s)' % ex, None
+        plugged[L] = dict(record)
+    want = {0: 'Err:StringWrongLen', 1: 'proceeds', 2: 'Err:StringWrongLen', 3: 'proceeds', 4: 'Err:StringWrongLen', 5: 'Err:StringWrongLen'}
+    bad = {L: (results[L], want[L]) for L in want if not results[L].startswith(want[L]) and not (want[L] == 'proceeds' and results[L] == 'finished')}
+    if bad:
+        L = sorted(bad)[0]
+        return False, ('on a 3-qubit circuit a query string of length %d %s; it must %s (accepted forms: the single-character broadcast and the exact length; everything else is Err(StringWrongLen) before the string is used)'
+                       % (L, 'is accepted and used' if bad[L][0] in ('proceeds', 'finished') else 'gives ' + bad[L][0], 'be rejected with Err(StringWrongLen)' if want[L].startswith('Err') else 'be accepted')), {'outcomes': results}
+    return True, '', {'outcomes': results, 'plugged': {L: plugged[L] for L in (1, 3)}}
+
+
 def parser_table(f):
     """char -> value table of a string parser; default must be Err"""
     ms = hir.find(f['hir'], 'Match')
@@ -230,14 +275,14 @@ def _run_own(ck):
         ck.ob('R-DATAFLOW', sk + '/prefix-update', ms['conditional'] or not base, ck.site(sk),
               'the carried prefix probability must become the joint marginal after a 1 and (old prefix - joint) after a 0; found dependencies %s — a 0-branch that ignores the old prefix is only right for the first bit' % ms.get('prefix_update'))
     # ---- D2
-    for key in (SIM + 'amplitude', SIM + 'expectation_value'):
+    qsem = {}
+    for key, et, ef_ in ((SIM + 'amplitude', True, False), (SIM + 'expectation_value', ('const', SIM + 'Pauli::X'), ('const', SIM + 'Pauli::Z'))):
         fk = ck.fn(key)
-        v, u = validation_dominates(fk)
-        ck.ob('R-BOUNDS-validate', key + '/validated-before-use', v is not None and u is not None and v[0] < u, ck.site(key), 'the string length is not validated (Err(StringWrongLen)) before the string is used to plug / index outputs', sample={'accepting_arms': v[1] if v else None})
-        if v:
-            acc = v[1]
-            ck.ob('R-BOUNDS-validate', key + '/accepts-broadcast-and-exact-length', len(acc) == 2 and any('len() == qs' in a.replace('(', '').replace(')', '').replace('  ', ' ') or 'len() == qs' in a for a in acc), ck.site(key),
-                  'accepted forms must be the single-character broadcast and the exact length: %s' % acc)
+        # decided by evaluating the function on query strings of every length 0..5 for a 3-qubit circuit (independent of how the validation is spelled)
+        okq, msgq, sampleq = query_semantics(fk, et, ef_)
+        qsem[key] = sampleq
+        ck.ob3('R-BOUNDS-validate', key + '/validated-before-use', okq, ck.site(key), msgq, sample={'outcomes': (sampleq or {}).get('outcomes')})
+        ck.ob3('R-BOUNDS-validate', key + '/accepts-broadcast-and-exact-length', okq, ck.site(key), msgq)
     for key, want in ((SIM + 'parse_bit_string', {'0': 'false', '1': 'true'}), (SIM + 'parse_pauli_string', {'I': 'I', 'X': 'X', 'Y': 'Y', 'Z': 'Z'})):
         r = parser_table(ck.fn(key))
         if r is None:
@@ -258,9 +303,19 @@ def _run_own(ck):
     tail = hir.stmts_of(af['hir'])[-1]
     okret = 'amp.complex_value().re' in hir.pp(tail)
     ck.ob('R-EFFECT', SIM + 'amplitude/probability', ok and okret, ck.site(SIM + 'amplitude'), 'the amplitude query must print Re(s * conj(s)) of the plugged diagram\'s scalar')
-    pl = [c for c in hir.calls(af['hir']) if c.get('k') == 'MethodCall' and c['name'] in ('plug_inputs', 'plug_outputs')]
-    ck.ob('R-EFFECT', SIM + 'amplitude/plugs', [c['name'] for c in pl] == ['plug_inputs', 'plug_outputs'] and 'Z0' in hir.pp(pl[0]['args'][0]) and 'Z1' in hir.pp(pl[1]['args'][0]) and 'Z0' in hir.pp(pl[1]['args'][0]), ck.site(SIM + 'amplitude'),
-          'amplitude must plug |0..0> into the inputs and the requested bits (true -> Z1, false -> Z0) into the outputs')
+    pg = (qsem.get(SIM + 'amplitude') or {}).get('plugged')
+    if not pg:
+        ck.ob3('R-EFFECT', SIM + 'amplitude/plugs', None, ck.site(SIM + 'amplitude'), 'what amplitude plugs could not be evaluated')
+    else:
+        def nm_(x):
+            return str(x[1]).rsplit('::', 1)[-1] if isinstance(x, tuple) and x and x[0] == 'const' else str(x)
+        exact = pg.get(3) or {}
+        broad = pg.get(1) or {}
+        okp = [nm_(x) for x in (exact.get('inputs') or [])] == ['Z0'] * 3 and [nm_(x) for x in (exact.get('outputs') or [])] == ['Z1', 'Z0', 'Z1'] \
+            and [nm_(x) for x in (broad.get('outputs') or [])] == ['Z1'] * 3
+        ck.ob('R-EFFECT', SIM + 'amplitude/plugs', okp, ck.site(SIM + 'amplitude'),
+              'amplitude must plug |0..0> into the inputs and the requested bits (true -> Z1, false -> Z0) into the outputs; for the bits [1,0,1] it plugs inputs %s, outputs %s; for the broadcast [1] outputs %s'
+              % ([nm_(x) for x in (exact.get('inputs') or [])], [nm_(x) for x in (exact.get('outputs') or [])], [nm_(x) for x in (broad.get('outputs') or [])]))
     ef = ck.fn(SIM + 'expectation_value')
     r = pauli_arms(facts, ef)
     if r is None:
@@ -285,35 +340,63 @@ def _run_own(ck):
     il = [i for i, s in enumerate(st) if s.get('k') == 'For']
     ck.ob('R-EFFECT', SIM + 'expectation_value/adjoint-before-paulis', bool(ia and il) and ia[0] < il[0], ck.site(SIM + 'expectation_value'), 'the adjoint copy must be taken before the Pauli spiders are inserted')
     dg = ck.fn(SIM + 'decomp_graph')
-    ifs = [n for n in hir.nodes(dg['hir']) if n.get('k') == 'If']
-    ok = False
-    if len(ifs) == 1:
-        a = [c['name'] for c in hir.calls(ifs[0]['then']) if c.get('k') == 'MethodCall']
-        b = [c['name'] for c in hir.calls(ifs[0]['else']) if c.get('k') == 'MethodCall']
-        ok = sorted(a) == ['decompose_parallel', 'scalar'] and sorted(b) == ['decompose', 'scalar']
-    pre = [hir.callee(c) for c in hir.calls(dg['hir']) if (hir.callee(c) or '').startswith('simplify::')]
-    ck.ob('R-SIB-parallel', SIM + 'decomp_graph', ok and pre == ['simplify::full_simp'], ck.site(SIM + 'decomp_graph'), 'decomp_graph must full_simp, set the target and then differ only in decompose_parallel vs decompose')
+    # every path: full_simp first, then exactly one of decompose_parallel (the `parallel` option is Some) / decompose (it is None), then the scalar is read
+    par_id = [p_['id'] for p_, t in zip(dg['params'], dg['inputs']) if 'Option<usize>' in t]
+
+    def _ev_dg(n):
+        return (n.get('k') == 'Call' and (hir.callee(n) or '').startswith('simplify::')) or (n.get('k') == 'MethodCall' and n['name'] in ('decompose', 'decompose_parallel', 'scalar', 'set_target'))
+    eps = [p_ for p_ in paths.effect_paths(hir.stmts_of(dg['hir']), _ev_dg) if p_.end != 'diverge']
+    ok = None
+    why = ''
+    if eps and par_id:
+        ok = True
+        for p_ in eps:
+            names = [(hir.callee(e) or '').rsplit('::', 1)[-1] if e.get('k') == 'Call' else e['name'] for e in p_.events if isinstance(e, dict)]
+            some = None
+            for c in p_.conds:
+                if c[0] in ('pat', 'nopat') and any(hir.local(x) and hir.local(x)[1] == par_id[0] for x in hir.nodes(c[2]) if x.get('k') == 'Path'):
+                    pats = [c[1]] if c[0] == 'pat' else c[1]
+                    is_some = all((hir.pat_ctor(q) or '').endswith('Some') for q in pats)
+                    is_none = all(hir.pp_pat(q).endswith('None') for q in pats)
+                    if c[0] == 'pat':
+                        some = True if is_some else (False if is_none else some)
+                    else:
+                        some = False if is_some else (True if is_none else some)
+            dec = [x for x in names if x in ('decompose', 'decompose_parallel')]
+            if some is None or len(dec) != 1:
+                ok, why = None, 'a path of decomp_graph is not conditioned on the `parallel` option in a recognised way (%s)' % names
+                break
+            good = names[:1] == ['full_simp'] and dec == (['decompose_parallel'] if some else ['decompose']) and 'scalar' in names[names.index(dec[0]):] and [x for x in names if x.endswith('_simp')] == ['full_simp']
+            if not good:
+                ok, why = False, 'with parallel = %s decomp_graph performs %s; it must full_simp, then %s, then read the scalar' % ('Some(n)' if some else 'None', names, 'decompose_parallel' if some else 'decompose')
+                break
+    ck.ob3('R-SIB-parallel', SIM + 'decomp_graph', ok, ck.site(SIM + 'decomp_graph'), why or 'decomp_graph must full_simp, set the target and then differ only in decompose_parallel vs decompose')
     for key in (SIM + 'sample', SIM + 'amplitude', SIM + 'expectation_value'):
         n = len(hir.calls_to(facts['fns'][key]['hir'], SIM + 'decomp_graph'))
         direct = [c for c in hir.calls(facts['fns'][key]['hir']) if c.get('k') == 'MethodCall' and c['name'] in ('decompose', 'decompose_parallel')]
         ck.ob('R-WHO', key + '/through-decomp_graph', n >= 1 and not direct, ck.site(key), 'every task must evaluate scalars through decomp_graph')
     tk = SIM + 'SimTask::run'
     tf = ck.fn(tk)
-    tbl = []
-    for p in paths.effect_paths(hir.stmts_of(tf['hir']), lambda n: n.get('k') == 'Call' and hir.callee(n) in (SIM + 'sample', SIM + 'amplitude', SIM + 'expectation_value')):
-        flds = [hir.pp(c[2]).replace('self.', '') for c in p.conds if c[0] == 'pat']
-        if p.events:
-            tbl.append((flds[-1] if flds else None, [hir.callee(e).rsplit('::', 1)[1] for e in p.events if isinstance(e, dict)]))
-    want = [('shots', ['sample']), ('bit_string', ['amplitude']), ('pauli_string', ['expectation_value'])]
-    got = [(a, b) for a, b in tbl if b]
-    # sample is called inside a closure (map): effect_paths does not enter closures, so look directly
+    # which option field of the task guards which evaluation function: every call must be dominated by `Some(..)` of exactly one field of self
+    pm_t = hir.parent_map(tf['hir'])
     direct = {}
-    for n in hir.nodes(tf['hir']):
-        if n.get('k') == 'If' and hir.strip(n['cond']).get('k') == 'LetCond':
-            fld = hir.pp(hir.strip(n['cond'])['init']).replace('self.', '').replace('&', '')
-            called = sorted({hir.callee(c).rsplit('::', 1)[1] for c in hir.calls(n['then']) if hir.callee(c) in (SIM + 'sample', SIM + 'amplitude', SIM + 'expectation_value')})
-            direct[fld] = called
-    ck.ob('R-TABLE-config', tk, direct == {'shots': ['sample'], 'bit_string': ['amplitude'], 'pauli_string': ['expectation_value']}, ck.site(tk), 'task dispatch is %s' % direct, sample={'table': str(direct)})
+    unknown_guard = False
+    for c in hir.calls(tf['hir']):
+        if hir.callee(c) in (SIM + 'sample', SIM + 'amplitude', SIM + 'expectation_value'):
+            flds = set()
+            for d in paths.dominating_conds(c, pm_t):
+                if d[0] == 'pat' and (hir.pat_ctor(d[1]) or '').endswith('Some'):
+                    for x in hir.nodes(d[2]):
+                        if x.get('k') == 'Field' and hir.local_name(x['e']) == 'self':
+                            flds.add(x['name'])
+            if len(flds) == 1:
+                direct.setdefault(next(iter(flds)), set()).add(hir.callee(c).rsplit('::', 1)[1])
+            else:
+                unknown_guard = True
+    direct = {k2: sorted(v2) for k2, v2 in direct.items()}
+    want_t = {'shots': ['sample'], 'bit_string': ['amplitude'], 'pauli_string': ['expectation_value']}
+    conflict = any(direct.get(k2) and direct[k2] != v2 for k2, v2 in want_t.items()) or any(k2 not in want_t for k2 in direct)
+    ck.ob3('R-TABLE-config', tk, True if direct == want_t else (False if conflict else None), ck.site(tk), 'task dispatch is %s' % direct, sample={'table': str(direct)})
     rk = SIM + 'SimArgs::run'
     rf = ck.fn(rk)
     ifs = [n for n in hir.nodes(rf['hir']) if n.get('k') == 'If' and hir.local_name(n['cond']) in ('cats', 'use_cats')]
